@@ -164,8 +164,9 @@ theorem c09_missing_middle_chunk (cfg : Cfg) (b : Nat) (rest : List Nat) (acc : 
 
 /-- (g) Two steps: the chunk ids are `a :: b :: rest`; chunk `a` is an undamaged
 file `encAll rs` that replays without error, so its records end at global offset
-`a + |encAll rs|`; if that is not `b`, `open` fails with `gap`, and neither the
-files nor the event list changed. -/
+`a + |encAll rs|`; if that is not `b`, `open` fails with `gap`; the only effect
+is the sync of the kept chunk `a` (D15; old: neither the files nor the event list
+changed). -/
 theorem c09_missing_middle_chunk_two (cfg : Cfg) (a b : Nat) (rest : List Nat) (acc : OpenAcc)
     (f : File) (rs : List Record) (sm2 : Store)
     (habut : gapCheck acc a = false) (hfind : acc.fs.find a = some f)
@@ -174,22 +175,23 @@ theorem c09_missing_middle_chunk_two (cfg : Cfg) (a b : Nat) (rest : List Nat) (
       = .ok sm2)
     (hgap : a + (encAll rs).length ≠ b) :
     ∃ acc', openLoop cfg (a :: b :: rest) acc = (.err .gap, acc') ∧
-      acc'.fs = acc.fs ∧ acc'.evs = acc.evs := by
+      acc'.fs = acc.fs.sync a ∧ acc'.evs = acc.evs ++ [Ev.sync "o" a true] := by
   rw [openLoop_clean_step (b :: rest) habut hfind hdata hwf (Or.inr (by simp)) hr]
   exact c09_missing_middle_chunk cfg b rest _ _ (OpenAcc.loaded_prevEnd acc a rs sm2) hgap
 
-/-- (g) at the level of `open`: a gap error leaves the directory as it was when
-it is detected right after cleanly loaded chunks. -/
+/-- (g) at the level of `open`: a gap error detected right after cleanly loaded chunks
+leaves the directory as it was except that those chunks were synced (D15; old:
+`(.err .gap, fs, [])`). -/
 theorem c09_open_gap (cfg : Cfg) (fs : Fs) (ids : List Nat) (b : Nat) (rest : List Nat)
     (a' : OpenAcc) (e : Nat)
     (hids : fs.linkedIds = ids ++ b :: rest)
     (hload : Loads cfg ids { sm := emptyStore cfg, fs := fs } a')
     (hprev : a'.prevEnd = some e) (hne : e ≠ b) :
-    openStore cfg fs = (.err .gap, fs, []) := by
+    openStore cfg fs = (.err .gap, fs.syncAll ids, syncEvs ids) := by
   obtain ⟨acc', hl, hfs, hevs⟩ := c09_missing_middle_chunk cfg b rest a' e hprev hne
   obtain ⟨hfs', hevs'⟩ := hload.fs_evs
   unfold openStore
-  simp only [hids, hload.openLoop_append, hl, hfs, hevs, hfs', hevs']
+  simp only [hids, hload.openLoop_append, hl, hfs, hevs, hfs', hevs', List.nil_append]
 
 /-! ### Non-vacuity -/
 
@@ -201,11 +203,11 @@ example : parseChunk (encAll [.saveVote ⟨3, 4⟩] ++
   decide +kernel
 
 /-- Two chunks `0` and `100`; chunk `0` holds 28 + 28 bytes: `open` reports the
-gap and leaves the directory alone. -/
+gap; chunk `0` was synced before (D15), nothing else changed. -/
 example : openStore {} [{ id := 0, data := encAll [.state {}, .commit ⟨1, 2⟩] },
                         { id := 100, data := encAll [.state {}] }]
-    = (.err .gap, [{ id := 0, data := encAll [.state {}, .commit ⟨1, 2⟩] },
-                   { id := 100, data := encAll [.state {}] }], []) := by
+    = (.err .gap, [{ id := 0, data := encAll [.state {}, .commit ⟨1, 2⟩], durable := 46 },
+                   { id := 100, data := encAll [.state {}] }], [.sync "o" 0 true]) := by
   decide +kernel
 
 /-- An instance of the byte-alteration corollary: first tag byte of
